@@ -79,6 +79,7 @@ def _worker(job):
             for clabel, alg, kind in configurations(w):
                 if pivot != "first" and "KwikSort" not in clabel:
                     continue
+                # (SCHEMES of this rule: unifying, induced, pseudodistance, generic - the first two are Borda's)
                 accepts = complete or kind == "any" or (kind == "borda" and slabel in ("unifying", "induced")) \
                     or (kind == "pick" and slabel == "unifying")
                 for amo in (True, False):
